@@ -272,6 +272,58 @@ pub fn run_empty_and_truncated() -> Sweep {
     })
 }
 
+/// The bytes between the sections: alignment padding removed or added, and inputs that start at a section boundary.
+pub fn run_section_edges() -> Sweep {
+    let lens = [1usize, 3, 4, 7, 8, 9, 12, 15, 16];
+    let shifts: [i64; 9] = [-7, -4, -2, -1, 0, 1, 3, 7, 8];
+    let main = minimal_main();
+    // (a) signature store length × padding shortened / lengthened by k bytes × reader
+    let na = (lens.len() * shifts.len()) as u64;
+    // (b) a complete package cut at its section boundaries: every non-empty subsequence of [lead, signature header + padding, main header, payload]
+    let nb = 15u64;
+    Sweep::new("section-edges", format!("(a) signature data sections of {:?} bytes with the alignment padding behind them shortened or lengthened by {:?} bytes; (b) the 15 non-empty selections of the four sections [lead, signature header with padding, main header, payload] of a package, in order (a bare main header, a package without lead, …): whatever the parser accepts must round-trip byte for byte and report true offsets", lens, shifts), na + nb, move |i, acc| {
+        acc.evals += 1;
+        let (x, what): (Vec<u8>, String) = if i < na {
+            let len = lens[(i / shifts.len() as u64) as usize];
+            let shift = shifts[(i % shifts.len() as u64) as usize];
+            let sig = RawHeader::new(vec![RawEntry { tag: 1004, ty: 7, offset: 0, count: len as u32 }], (0..len).map(|k| 0x30 + k as u8).collect());
+            let (whole, lay) = assemble(&RawLead::new("n"), &sig, 0, &main, b"pay");
+            let pad_start = lay.hdr_off - (8 - (16 + 16 + len) % 8) % 8;
+            let mut y = whole[..pad_start].to_vec();
+            let pad = (lay.hdr_off - pad_start) as i64 + shift;
+            if pad < 0 {
+                return;
+            }
+            y.extend(std::iter::repeat(0u8).take(pad as usize));
+            y.extend_from_slice(&whole[lay.hdr_off..]);
+            (y, format!("signature data section of {} bytes, padding of {} instead of {} bytes", len, pad, lay.hdr_off - pad_start))
+        } else {
+            let mask = i - na + 1;
+            let sig = RawHeader::layout_region(62, &[(273, Val::str("0123456789abcdef")), (1000, Val::Int32(vec![7]))]);
+            let (whole, lay) = assemble(&RawLead::new("n"), &sig, 0, &RawHeader::layout_region(63, &[(1000, Val::str("n")), (1004, Val::i18n(&["s"]))]), b"payload-bytes");
+            let parts: [&[u8]; 4] = [&whole[..lay.sig_off], &whole[lay.sig_off..lay.hdr_off], &whole[lay.hdr_off..lay.payload_off], &whole[lay.payload_off..]];
+            let mut y = vec![];
+            let mut names = vec![];
+            for (k, part) in parts.iter().enumerate() {
+                if mask & (1 << k) != 0 {
+                    y.extend_from_slice(part);
+                    names.push(["lead", "signature header", "main header", "payload"][k]);
+                }
+            }
+            (y, format!("input consisting of {:?}", names))
+        };
+        let case = || json!({"bytes_hex": vlib::hex(&x), "varied": what});
+        match oracle_roundtrip("section-edges", &x, i, &case, acc) {
+            Some(p) => {
+                acc.nontrivial += 1;
+                oracle_offsets("section-edges", &p, i, &case, acc);
+                acc.count("accepted");
+            }
+            None => acc.count("rejected by the parser (not judged)"),
+        }
+    })
+}
+
 pub fn run_dribble() -> Sweep {
     let extras: Vec<Vec<(u32, Val)>> = vec![
         vec![],
@@ -402,6 +454,7 @@ pub fn sweeps(ctx: &Ctx) -> Vec<Sweep> {
     v.push(run_dribble());
     v.push(run_unknown_types());
     v.push(run_empty_and_truncated());
+    v.push(run_section_edges());
     v
 }
 
